@@ -19,7 +19,9 @@ RULE = ("Hypothesis draws a controlled-spectrum operator: PD leaves Q diag(lam) 
         "Schur-based expm/logm/sqrtm/fractional_matrix_power/funm applied to the dense reference matrix, times the operand; "
         "plus sqrt(A) applied twice == A v; in half of the cases the returned operator is first applied to an eigenvector or "
         "a zero operand and must still be right for the drawn one. Non-trivial: a structural rule, a Krylov algorithm, a non-Hermitian or complex "
-        "input, or a non-integer exponent.")
+        "input, or a non-integer exponent."
+        " Further: float32 / complex64 payloads (2e-3 relative), negative multiples of declared-PSD operators for exp"
+        " / apply_unary.")
 ASSUMPTIONS = [
     "tolerance: |y - f(M) v| <= 1e-7 * cond(X) * |f(M)|_2 |v| (float64 payloads); Krylov algorithms are run to the full Krylov dimension with tol = 1e-12",
     "AssertionError raised by a selected rule (Eigh/Lanczos on operators not declared SelfAdjoint/PSD) is an in-contract refusal",
